@@ -85,13 +85,16 @@ PROPS = {
     "C03": {
         "level": "exploration",
         "jobs": {
-            "quick": [job("sim", "mux", "verif", "c03", 8), job("thr", "mux", "verif", "c03", 4, extra=["--engine", "thr"])],
+            "quick": [job("sim", "mux", "verif", "c03", 8), job("thr", "mux", "verif", "c03", 4, extra=["--engine", "thr"]),
+                      job("bridge", "mux", "verif", "c13", 4, extra=["--only", "credit"])],
             "thorough": [job("sim", "mux", "verif", "c03", 16), job("thr", "mux", "verif", "c03", 16, extra=["--engine", "thr"]),
-                         job("dev", "mux", "dev", "c03", 8, extra=["--scale", "0.05"])],
+                         job("dev", "mux", "dev", "c03", 8, extra=["--scale", "0.05"]),
+                         job("bridge", "mux", "verif", "c13", 16, extra=["--only", "credit"])],
         },
         "required_targets": {"any": ["writer_blocked_at_zero", "ack_raced_write"]},
         "assumptions": COMMON_ASSUMPTIONS + SIM_ASSUMPTIONS + [
             "window_out is taken from the wire (peer's Connect rwnd / handshake Acknowledge), credit events from the CreditTaken/FrameConsumed/WindowOverrun hooks",
+            "job bridge (vmux c13 --only credit): the executions of the bridge check (scripted local side, bursts of up to several hundred KiB ready at once) with only the credit rules giving verdicts: every Push frame the bridge sends has taken one unit, the window is never exceeded",
         ],
     },
     "C04": {
